@@ -209,7 +209,10 @@ def run(ctx):
              ("2D2O + H2O@1n", {("D", 2, 0): 4, ("O", 0, 0): 3, ("H", 0, 0): 2}, (Fraction(1), "natural")),
              ("Fe[56] 2O", {("Fe", 56, 0): 1, ("O", 0, 0): 2}, None),
              ("2H2O", {("H", 0, 0): 4, ("O", 0, 0): 2}, None), ("(NaCl)3", {("Na", 0, 0): 3, ("Cl", 0, 0): 3}, None),
-             ("Fe Fe", {("Fe", 0, 0): 2}, None), ("Fe+2Fe", {("Fe", 0, 0): 3}, None), ("(Fe)2", {("Fe", 0, 0): 2}, None)]
+             ("Fe Fe", {("Fe", 0, 0): 2}, None), ("Fe+2Fe", {("Fe", 0, 0): 3}, None), ("(Fe)2", {("Fe", 0, 0): 2}, None),
+             # the ends of a composition series: a count written as zero multiplies like any other count
+             ("Fe0.00Ni1.00", {("Fe", 0, 0): 0, ("Ni", 0, 0): 1}, None), ("NaCl+0.0H2O", {("Na", 0, 0): 1, ("Cl", 0, 0): 1, ("H", 0, 0): 0, ("O", 0, 0): 0}, None),
+             ("Fe0.5Ni0.5", {("Fe", 0, 0): Fraction(1, 2), ("Ni", 0, 0): Fraction(1, 2)}, None)]
     nfixed = len(fixed)
     cases = fixed + [gen.compound(depth=3 if k % 4 == 0 else 2) for k in range(n_valid)]
     from .C12 import action_site
